@@ -570,6 +570,11 @@ func (h *harness) genCase(r *rng, name, stream string, nops int) *Case {
 			}
 			c.Ops = append(c.Ops, Op{Kind: "reopen"}, Op{Kind: "items"})
 		}
+		// the last session starts on an empty database (a new hash seed is drawn) and leaves data behind
+		for i, n := 0, 3+r.intn(5); i < n; i++ {
+			c.Ops = append(c.Ops, Op{Kind: "put", K: c.Pool[r.intn(len(c.Pool))], V: patternBytes(5+r.intn(40), byte(r.next()))})
+		}
+		c.Ops = append(c.Ops, Op{Kind: "reopen"}, Op{Kind: "items"}, Op{Kind: "get", K: c.Pool[0]}, Op{Kind: "reopen"}, Op{Kind: "items"})
 		return c
 	}
 	if stream == "ploss" && (h.prop == "C06" || h.prop == "C09") && r.chance(15) {
@@ -944,15 +949,16 @@ type session struct {
 	db     *pogreb.DB
 	opts   *pogreb.Options
 	// crash-image bookkeeping
-	img     *simfs.Image // image after journal[:imgAt]
-	imgAt   int
-	pl      *simfs.PLState
-	plAt    int
-	opIndex int
-	r       *rng
-	base    *simfs.Image // image the current sim started from
-	bkNo    int
-	fresh   int // counter of keys made up by macro operations
+	img           *simfs.Image // image after journal[:imgAt]
+	imgAt         int
+	pl            *simfs.PLState
+	plAt          int
+	opIndex       int
+	r             *rng
+	base          *simfs.Image // image the current sim started from
+	bkNo          int
+	fresh         int // counter of keys made up by macro operations
+	closedHandles []*pogreb.DB
 }
 
 func (s *session) readSeg(name string) []byte {
@@ -1941,8 +1947,21 @@ func (h *harness) runCase(c *Case, stream string, r *rng) {
 			h.emit("syncpoint")
 			h.emit("dir %s handles=%d", dirLine(s.sim.Snapshot()), s.sim.OpenHandles())
 			s.useAfterClose()
+			if len(s.closedHandles) > 0 && (s.r.chance(30) || s.h.prop == "C10") {
+				// a Close of a handle of an EARLIER session while nobody has the directory open: the next
+				// Open must still find what the last owner closed
+				st := s.closedHandles[s.r.intn(len(s.closedHandles))]
+				res := "panic"
+				func() {
+					defer func() { _ = recover() }()
+					res = errStr(st.Close())
+				}()
+				h.emit("staleclose %s", res)
+				h.stat("staleclose.between")
+			}
+			s.closedHandles = append(s.closedHandles, old)
 			if s.open("clean") {
-				if s.r.chance(40) {
+				if s.r.chance(40) || s.h.prop == "C10" {
 					// a second Close of the previous handle (a deferred Close after an explicit one) while
 					// the directory belongs to the new one: it must fail and touch nothing
 					res := "panic"
@@ -1982,7 +2001,8 @@ func (h *harness) runCase(c *Case, stream string, r *rng) {
 			s.sim.Kill()
 			h.emit("kill")
 			for i := 0; i < 70; i++ {
-				s.sim.ResetFailBudget(2 + s.r.intn(12))
+				// die after the files have been moved aside, before the recovery is complete
+				s.sim.ResetFailBudget(len(s.sim.Snapshot().Names()) + 4 + s.r.intn(6))
 				db, err := pogreb.Open(dbDir, s.opts)
 				s.sim.ResetFailBudget(-1)
 				if err == nil {
